@@ -1,6 +1,6 @@
 #!/bin/sh
 # Command under test with faults that depend on the candidate.
-# usage: faulty.sh <bugmode> <file>      bugmode: exit1 | kill9 | hang | alloc
+# usage: faulty.sh <bugmode> <file>      bugmode: exit1 | err1 (as exit1, with a line on stderr) | kill9 | hang | alloc
 #  - token "keep" absent                 -> prints ok, exit 0
 #  - h1 present and h2 absent            -> sleeps forever
 #  - s1 present and s2 absent            -> spins forever
@@ -34,5 +34,6 @@ import mmap, time
 keep = [mmap.mmap(-1, 50 * 2**20) for _ in range(30)]
 time.sleep(100)
 " ;;
+  err1) echo bug; echo 'error: bug' >&2; exit 1 ;;
   *) echo bug; exit 1 ;;
 esac
